@@ -190,9 +190,9 @@ pub fn p_exps(t: &str) -> R<Unit> {
     let (a, b) = t.split_once(',').ok_or(Bad)?;
     mk_unit(p_i64(a)?, p_i64(b)?)
 }
-/// Unit → `<mm>,<s>`. Checked build: read the private exponents from the `Debug` output
-/// (`Unit { millimeter_exp: 1, second_exp: -2 }`). Unchecked build: `Unit` is a ZST, print `0,0`.
-#[cfg(feature = "chk")]
+/// Unit → `<mm>,<s>`, in EVERY configuration by the same code: whether units are checked is decided inside rrtk (by its features and,
+/// for `dim_check_debug`, by the profile), not by a harness feature. Where they are not, `Unit` is a ZST, all units are equal and the
+/// search below answers `0,0` at its first candidate.
 pub fn f_exps(u: Unit) -> String {
     fn field<'a>(s: &'a str, key: &str) -> &'a str {
         match s.find(key) {
@@ -210,7 +210,7 @@ pub fn f_exps(u: Unit) -> String {
     let (m, t) = (field(&s, "millimeter_exp: "), field(&s, "second_exp: "));
     // fast path: the derived `Debug` output, cross-checked by equality with `Unit::new`
     if let (Ok(mi), Ok(ti)) = (m.parse::<i8>(), t.parse::<i8>()) {
-        if u == Unit::new(mi, ti) {
+        if u.eq_assume_true(&Unit::new(mi, ti)) {
             return format!("{},{}", mi, ti);
         }
     }
@@ -225,18 +225,13 @@ pub fn f_exps(u: Unit) -> String {
     for r in 0..order.len() {
         for k in 0..=r {
             for (mi, ti) in [(order[r], order[k]), (order[k], order[r])] {
-                if u == Unit::new(mi, ti) {
+                if u.eq_assume_true(&Unit::new(mi, ti)) {
                     return format!("{},{}", mi, ti);
                 }
             }
         }
     }
     "?,?".to_string()
-}
-#[cfg(not(feature = "chk"))]
-pub fn f_exps(u: Unit) -> String {
-    let _ = u;
-    "0,0".to_string()
 }
 impl Enc for Unit {
     fn enc(&self) -> String {
